@@ -160,6 +160,15 @@ def run(ck, cancels=False):
               "jobs": [{"script": ["E"] * nfail + ["V"], "S": 0, "C": False}], "dur": 0, "horizon": 4000}
         swept.append({"scen": "retry", "params": pz, "strat": ["random", 1, 0.6], "gran": "sync", "facts": facts_of(pz),
                       "opts": {"max_steps": 40 * nfail + 2000}})
+    # back-offs of a fraction of a tick, and a long geometric back-off with an exponent close to 1 (66+ attempts)
+    for pol, nfail in (({"kind": "exc", "max_attempts": 5, "sleep": 0.5, "exponent": 2, "max_sleep": 3}, 4),
+                       ({"kind": "exc", "max_attempts": 6, "sleep": 0.25, "exponent": 1.5, "max_sleep": 1000}, 5),
+                       ({"kind": "exc", "max_attempts": 80, "sleep": 0.5, "exponent": 1.1, "max_sleep": 5000}, 75)):
+        for fl in ("manual", "pool"):
+            pf = {"flavour": fl, "policy": pol, "jobs": [{"script": ["E"] * nfail + ["V"], "S": 0, "C": False}], "dur": 10,
+                  "horizon": 12000}
+            swept.append({"scen": "retry", "params": pf, "strat": ["random", 7, 0.6], "gran": "sync", "facts": facts_of(pf),
+                          "opts": {"max_steps": 60000}})
     ck.run_and_validate(swept, TRACE, nontrivial=lambda t, r: True)
     ck.assumptions += [
         "back-off arithmetic in integer ticks (1 ms); attempt end = InvokeEnd; SLACK = 3 ticks",
